@@ -86,6 +86,12 @@ def edits(rng, j, tag):
     out.append(E('memory-badhex-page1', lambda k: (k['public_input']['public_memory'][3].__setitem__('value', 'nothex'), k['public_input']['public_memory'][3].__setitem__('page', 1)), 'err'))
     out.append(E('memory-value-ge-P', lambda k: k['public_input']['public_memory'][3].__setitem__('value', hex(P + 5))))
     out.append(E('memory-empty', lambda k: k['public_input'].__setitem__('public_memory', []), 'err'))
+    # a well-formed continuous page (consecutive addresses) in the MIDDLE / at the END of the public memory: the main page is
+    # every page-0 entry in file order
+    out.append(E('memory-page1-middle', lambda k: [k['public_input']['public_memory'][i].__setitem__('page', 1) for i in (5, 6, 7)], 'ok'))
+    out.append(E('memory-page1-end', lambda k: [k['public_input']['public_memory'][i].__setitem__('page', 1) for i in (-2, -1)], 'ok'))
+    out.append(E('memory-two-pages-interleaved', lambda k: ([k['public_input']['public_memory'][i].__setitem__('page', 1) for i in (3, 4)], [k['public_input']['public_memory'][i].__setitem__('page', 2) for i in (9, 10)]), 'ok'))
+    out.append(E('memory-reordered', lambda k: k['public_input']['public_memory'].__setitem__(slice(2, 4), k['public_input']['public_memory'][2:4][::-1]), 'ok'))
     out.append(E('memory-page1-nonconsecutive', lambda k: [k['public_input']['public_memory'][i].__setitem__('page', 1) for i in (5, 9)]))
     out.append(E('n_steps=0', lambda k: k['public_input'].__setitem__('n_steps', 0), 'err'))
     out.append(E('n_steps=3', lambda k: k['public_input'].__setitem__('n_steps', 3), 'err'))
@@ -154,7 +160,7 @@ def disagreement(c, co, mo):
         return None                      # reported by the oracle
     if co[0] == 'err' and mo[0] == 'ok':
         # the real parser validates data that never reaches the verifier (continuous pages, number of V->P interaction lines)
-        return None if ('page1' in kind or kind.startswith('memory')) else {'key': 'rejects:' + kind, 'what': f"the real parser rejects a file the format accepts ({c['name']})"}
+        return None if ('nonconsecutive' in kind) else {'key': 'rejects:' + kind, 'what': f"the real parser rejects a file the format accepts ({c['name']})"}
     if co[0] == 'ok' and mo[0] == 'err':
         for suffix, key in LENIENT.items():
             if kind.endswith(suffix):
